@@ -221,6 +221,12 @@ def one_request(res, sb, sw_holder, write, comps, method, cond, observe):
         if code < 128 or changed:
             res.violate(Violation("outside-request-not-refused", "4.xx/5.xx and no effect", {"code": code, "changed": len(changed)},
                                   "cli/fileserver.py:request_to_localpath", case, key="%s:%s" % (int(method), code >> 5)))
+    elif code >= 128 and changed:
+        # "answered with an error response and has no effect": whatever made the server refuse (a name it cannot use, a failed
+        # condition), the tree it serves is as it was - no half-written or left-over files either
+        res.violate(Violation("refused-request-has-effect", "an error response leaves the served tree unchanged",
+                              {"code": code, "changed": [os.path.basename(p)[:3] + "*" for p, _ in changed][:4]},
+                              "cli/fileserver.py:render_put", case, key="%s:%s:%s" % (int(method), code >> 5, "nul" if "nul" in shape else "other")))
     for m, e in sw.loop_exceptions():
         res.violate(Violation("loop-exception", "none", core.exc_desc(e) if e else m, core.site_of(e) if e else "loop", case,
                               key=type(e).__name__ if e else m[:40]))
